@@ -590,4 +590,99 @@ theorem construct_inv {self : Nat} {signers : List Nat} {threshold : Nat} {d st 
     · show (0 : Int) ≤ 0; omega
     · show (0 : Int) ≤ 0; omega
 
+/-! ### the vesting schedule -/
+
+theorem divCeil_le_iff {n d c : Int} (hd : 0 < d) : divCeil n d ≤ c ↔ n ≤ c * d := by
+  unfold divCeil
+  rw [Int.fdiv_eq_ediv_of_nonneg _ (Int.le_of_lt hd), Int.fmod_eq_emod_of_nonneg _ (Int.le_of_lt hd)]
+  have hdiv := Int.mul_ediv_add_emod n d
+  have hr0 := Int.emod_nonneg n (Int.ne_of_gt hd)
+  have hr1 := Int.emod_lt_of_pos n hd
+  generalize n / d = q at *
+  generalize n % d = r at *
+  rw [Int.mul_comm] at hdiv
+  by_cases hz : r = 0
+  · simp only [hz, if_true]
+    constructor
+    · intro h
+      have := Int.mul_le_mul_of_nonneg_right h (Int.le_of_lt hd)
+      omega
+    · intro h
+      apply Int.not_lt.mp
+      intro hlt
+      have h1 : c + 1 ≤ q := hlt
+      have := Int.mul_le_mul_of_nonneg_right h1 (Int.le_of_lt hd)
+      rw [Int.add_mul] at this
+      omega
+  · simp only [hz, if_false]
+    constructor
+    · intro h
+      have := Int.mul_le_mul_of_nonneg_right h (Int.le_of_lt hd)
+      rw [Int.add_mul] at this
+      omega
+    · intro h
+      apply Int.not_lt.mp
+      intro hlt
+      have h1 : c ≤ q := by omega
+      have := Int.mul_le_mul_of_nonneg_right h1 (Int.le_of_lt hd)
+      omega
+
+theorem divCeil_spec {n d : Int} (hd : 0 < d) : n ≤ divCeil n d * d ∧ divCeil n d * d < n + d := by
+  constructor
+  · exact (divCeil_le_iff hd).mp (Int.le_refl _)
+  · apply Int.not_le.mp
+    intro h
+    have h2 : n ≤ (divCeil n d - 1) * d := by rw [Int.sub_mul]; omega
+    have := (divCeil_le_iff hd).mpr h2
+    omega
+
+theorem amountLocked_after (s : State) {e : Int} (h : s.duration ≤ e) : amountLocked s e = 0 := by
+  unfold amountLocked; simp [h]
+
+theorem amountLocked_before (s : State) {e : Int} (h : e ≤ 0) (hd : e < s.duration) :
+    amountLocked s e = s.initial := by
+  unfold amountLocked
+  have : ¬ (e ≥ s.duration) := by omega
+  simp [this, h]
+
+theorem amountLocked_mid (s : State) {e : Int} (h0 : 0 < e) (hd : e < s.duration) :
+    amountLocked s e = divCeil (s.initial * (s.duration - e)) s.duration := by
+  unfold amountLocked
+  have h1 : ¬ (e ≥ s.duration) := by omega
+  have h2 : ¬ (e ≤ 0) := by omega
+  simp [h1, h2]
+
+theorem amountLocked_bounds (s : State) (hi : 0 ≤ s.initial) (e : Int) :
+    0 ≤ amountLocked s e ∧ amountLocked s e ≤ s.initial := by
+  by_cases h1 : s.duration ≤ e
+  · rw [amountLocked_after s h1]; omega
+  · by_cases h2 : e ≤ 0
+    · rw [amountLocked_before s h2 (by omega)]; omega
+    · have hd : 0 < s.duration := by omega
+      rw [amountLocked_mid s (by omega) (by omega)]
+      have hrem : 0 ≤ s.duration - e := by omega
+      have hn : 0 ≤ s.initial * (s.duration - e) := Int.mul_nonneg hi hrem
+      constructor
+      · apply Int.not_lt.mp
+        intro hlt
+        have h3 : divCeil (s.initial * (s.duration - e)) s.duration ≤ -1 := by omega
+        have := (divCeil_le_iff hd).mp h3
+        omega
+      · apply (divCeil_le_iff hd).mpr
+        exact Int.mul_le_mul_of_nonneg_left (by omega) hi
+
+theorem amountLocked_antitone (s : State) (hi : 0 ≤ s.initial) {e1 e2 : Int} (h : e1 ≤ e2) :
+    amountLocked s e2 ≤ amountLocked s e1 := by
+  by_cases h1 : s.duration ≤ e2
+  · rw [amountLocked_after s h1]; exact (amountLocked_bounds s hi e1).1
+  · by_cases h2 : e1 ≤ 0
+    · rw [amountLocked_before s h2 (by omega)]; exact (amountLocked_bounds s hi e2).2
+    · have hd : 0 < s.duration := by omega
+      rw [amountLocked_mid s (by omega) (by omega), amountLocked_mid s (by omega) (by omega)]
+      apply (divCeil_le_iff hd).mpr
+      have hle : s.initial * (s.duration - e2) ≤ s.initial * (s.duration - e1) :=
+        Int.mul_le_mul_of_nonneg_left (by omega) hi
+      have := (divCeil_spec (n := s.initial * (s.duration - e1)) hd).1
+      omega
+
 end BA.Multisig
